@@ -41,6 +41,10 @@ NEEDS = {
  "C18-post-after-early-return": ("C18", "a callback together with in-memory delivery (factory): the 'post' event is never queued"),
  "C20-limit-only-first-stage": ("C20", "a coder chain whose expanding stage is not the first (7zAES + LZMA2/LZMA/BZip2/PPMd) and a highly compressible member"),
  "C20-compress-reads-rest-at-once": ("C20", "creating an archive with a member larger than one read block (only memory shows it: the archive is byte-identical)"),
+ "C08-implicit-sizes-first-folder-only": ("C08", "a base archive with two or more single-stream folders and implicit substream sizes (create; append one member), then a session that appends two or more data members: only the first folder's size is made explicit, the new sizes land on the wrong members"),
+ "C10-method-names-dedupe-chains": ("C10", "two folders whose coder chains have the same length and the same first coder but differ behind it (DELTA+LZMA2 then BCJ+LZMA2): the summary omits the methods of the later chain"),
+ "C14-placeholder-valid-empty-header": ("C14", "the process dies in a create session after the placeholder and before close() rewrites the signature header: the placeholder is a VALID empty start header, the torn file opens as an empty archive"),
+ "C15-readlink-failure-swallowed": ("C15", "write() of a symlink whose readlink fails after lstat succeeded (link vanished / unreadable in between): the error is swallowed and a member with an empty target is stored"),
 }
 NOTES = {
  "C03-commonprefix-containment": "caught (exit 1) while /repo still had the purely lexical containment; the later repair F29 adds a physical check behind the lexical one, which makes this slip harmless: at the final HEAD the agent's own demonstration passes with the change applied, so it no longer breaks the property (the final run shows the lexical obligation's counterexamples as not reproducing)",
